@@ -408,6 +408,8 @@ fn split_json() -> Value {
     let k = crate::explore::SPLIT.with(|s| s.get());
     if k == crate::explore::PRIOR_LIFE {
         json!("prior-life")
+    } else if k == crate::explore::PRIOR_LIFE_B {
+        json!("prior-life-other-checker")
     } else {
         json!(k)
     }
@@ -774,7 +776,7 @@ pub fn replay(v: &Value) -> i32 {
     let seq: Vec<u8> = v["seq"].as_array().unwrap().iter().map(|x| x.as_u64().unwrap() as u8).collect();
     let all = scenarios(prop, tier);
     let sc = &all[idx];
-    let split = if v["split"] == "prior-life" { crate::explore::PRIOR_LIFE } else { v["split"].as_u64().unwrap_or(0) as usize };
+    let split = if v["split"] == "prior-life" { crate::explore::PRIOR_LIFE } else if v["split"] == "prior-life-other-checker" { crate::explore::PRIOR_LIFE_B } else { v["split"].as_u64().unwrap_or(0) as usize };
     let d1 = with_kit!(sc.kit, digest_of(sc, &seq, true));
     let d2 = with_kit!(sc.kit, digest_of(sc, &seq, true));
     if d1 != d2 {
